@@ -215,16 +215,21 @@ def makePacket (P : Prims) (cs : CState) (flag : Nat) (data : Bytes) (padLen : N
   else some ({ cs with off := cs.off + (pktHdrLength + data.length + padLen) },
              pktWire P cs.keys cs.off flag data padLen)
 
-/-- `padBurst`: the padding-length arguments of the `makePayloadPacket` calls it makes for a
-    burst of `burstLen` bytes and the sampled target `sampleLen` (`Int`: the code subtracts) -/
+/-- the `padLen` computed by `padBurst` (before it is split into packets) for a burst of
+    `burstLen` bytes and the sampled target `sampleLen` (`Int`: the code subtracts) -/
+def padBurstPadLen (burstLen sampleLen : Nat) : Int :=
+  let dataLen : Int := ((burstLen % maxSegmentLength : Nat) : Int)
+  let padLen : Int := if (sampleLen : Int) ≥ dataLen then (sampleLen : Int) - dataLen
+                      else ((maxSegmentLength : Int) - dataLen) + (sampleLen : Int)
+  if padLen < (pktOverhead : Int) then padLen + (maxSegmentLength : Int) else padLen
+
+/-- `padBurst`: the padding-length arguments of the `makePayloadPacket` calls it makes -/
 def padBurstLens (burstLen sampleLen : Nat) : List Int :=
-  let dataLen : Int := (burstLen % maxSegmentLength : Nat)
-  let padLen : Int := if (sampleLen : Int) ≥ dataLen then sampleLen - dataLen
-                      else (maxSegmentLength - dataLen) + sampleLen
-  let padLen := if padLen < pktOverhead then padLen + maxSegmentLength else padLen
+  let padLen := padBurstPadLen burstLen sampleLen
   if padLen = 0 then []
-  else if padLen > maxSegmentLength then [700 - (pktOverhead : Int), padLen - (700 + 2 * (pktOverhead : Int))]
-  else [padLen - pktOverhead]
+  else if padLen > (maxSegmentLength : Int) then
+    [700 - (pktOverhead : Int), padLen - (700 + 2 * (pktOverhead : Int))]
+  else [padLen - (pktOverhead : Int)]
 
 /-- payload packets of `Write(b)`: as much as fits into each packet -/
 def splitPayload : (fuel : Nat) → Bytes → List Bytes
@@ -400,6 +405,36 @@ def Store.connect (s : Store) (addr : String) (now : Int) : Store × Flight :=
   match s.getTicket addr now with
   | (s', some t) => (s', .ticket t)
   | (s', none) => (s', .uniformDH)
+
+/-- one step of a client's life, as far as tickets are concerned -/
+inductive HOp
+  /-- `Dial` to the bridge `addr` at wall-clock second `now` -/
+  | connect (addr : String) (now : Int)
+  /-- a `pktNewTicket` packet with payload `raw` arrives on a connection to `addr` -/
+  | issue (addr : String) (raw : Bytes) (now : Int)
+  /-- the process restarts (new `ClientFactory` on the same state directory); every change of the
+      store has been written to the file (write failures and torn files are property C18's) -/
+  | restart (now : Int)
+deriving Repr
+
+/-- key ‖ ticket, the 144 bytes the server issued -/
+def Ticket.raw (t : Ticket) : Bytes := t.key ++ t.ticket
+
+/-- run a history: final store and the tickets presented in handshakes (newest first) -/
+def runHist : Store → List Bytes → List HOp → Store × List Bytes
+  | s, pres, [] => (s, pres)
+  | s, pres, .connect addr now :: r =>
+    match s.connect addr now with
+    | (s', .ticket t) => runHist s' (t.raw :: pres) r
+    | (s', .uniformDH) => runHist s' pres r
+  | s, pres, .issue addr raw now :: r => runHist (s.storeTicket addr raw now) pres r
+  | s, pres, .restart now :: r => runHist (s.reload now) pres r
+
+/-- the ticket blobs the server issues along a history -/
+def issuedRaws : List HOp → List Bytes
+  | [] => []
+  | .issue _ raw _ :: r => raw :: issuedRaws r
+  | _ :: r => issuedRaws r
 
 /-! ## Reference server (no server exists in the repository) -/
 
